@@ -144,6 +144,9 @@ pub fn run_case(fam: &Fam, req: &Req, hist: &[Req]) -> String {
 pub fn random_root(fam: &Fam, rng: &mut Rng, depth: usize) -> (i64, isize, usize, Vec<(usize, isize)>) {
     let mut s = fam.initial_state(); let mut v = fam.initial_value(); let mut path = vec![];
     for k in 0..depth {
+        // a state the variable does not impact: the pooled diagram records no decision for that layer (long arc), so
+        // the sub-problems it hands out have paths shorter than their depth; same state, same value
+        if !fam.is_impacted_by(Variable(k), &s) && rng.chance(1, 2) { continue; }
         let mut ds = vec![];
         fam.for_each_in_domain(Variable(k), &s, &mut |d: Decision| ds.push(d));
         if ds.is_empty() { return (s, v, k, path); }
